@@ -18,7 +18,7 @@ import (
 func init() {
 	core.Register(&core.Prop{
 		ID: "C03", Level: "exploration",
-		Rule: "address D holds exactly 10 pUSD, 4 pEUR and 6 PEG (in base units, and in a second variant x1e8); every batch of length 1..L over a 10-letter transaction alphabet (transfer of balance-1 / balance / balance+1, two-output transfer, self-transfer, burn-address transfer, pUSD->pEUR, pEUR->pUSD, pUSD->PEG, transfer of pEUR beyond the held 4 that only an earlier in-batch conversion can fund) is signed as one entry and applied by the real pipeline in 5 eras; oracle: no balance negative; final balances of ALL addresses equal either the chain without the entry (rejected) or the full sequential reference effect (applied), nothing in between; applied only if the sequential running balance never goes negative, in-batch credits counted once they have happened. Non-trivial = distinct (era, scale, batch) with at least one transaction the address can afford alone",
+		Rule: "address D holds exactly 10 pUSD, 4 pEUR and 6 PEG (in base units, and in a second variant x1e8); every batch of length 1..L over a 12-letter transaction alphabet (transfer of balance-1 / balance / balance+1, two-output transfer, self-transfer, burn-address transfer, pUSD->pEUR, pEUR->pUSD, pUSD->PEG, transfers of pEUR / PEG beyond the held amount that only an earlier in-batch conversion can fund, transfer of 5 of the 6 PEG so that two of them only fit with an in-batch PEG credit) is signed as one entry and applied by the real pipeline in 5 eras; oracle: no balance negative; final balances of ALL addresses equal either the chain without the entry (rejected) or the full sequential reference effect (applied), nothing in between; applied only if the sequential running balance never goes negative, in-batch credits counted once they have happened. Non-trivial = distinct (era, scale, batch) with at least one transaction the address can afford alone",
 		Assumptions: []string{"reference conversion amounts use the recorded rates of the executing block (C12) and the unambiguous averaging window", "conversions into PEG in the bank eras are requested far below the bank, so the yield is the full amount and the refund zero"},
 		Run:         runC03,
 	})
@@ -47,6 +47,7 @@ func c03Alphabet() []c03Letter {
 		{"usd>peg", func(D factom.FAAddress, s uint64, _ factom.FAAddress) kit.Tx { return kit.Conversion(D, "pUSD", 5*s, "PEG") }},
 		{"xeur7", func(D factom.FAAddress, s uint64, _ factom.FAAddress) kit.Tx { return kit.Transfer(D, "pEUR", 7*s, B) }},
 		{"xpeg8", func(D factom.FAAddress, s uint64, _ factom.FAAddress) kit.Tx { return kit.Transfer(D, "PEG", 8*s, B) }},
+		{"xpeg5", func(D factom.FAAddress, s uint64, _ factom.FAAddress) kit.Tx { return kit.Transfer(D, "PEG", 5*s, B) }},
 	}
 }
 
